@@ -48,6 +48,7 @@ def body(ck):
     ck.assumptions = ["the collection part of iteration() is exercised by calling collect_rollout exactly as iteration() does (train() needs a Q-network and does not touch the buffer)",
                       "stub draws tabulated per key path; float64 exact on dyadic tables"]
     ck.build_coq(); ck.compile_props()
+    ck.kernel_link()   # the off-policy step regenerated from the source = OffPolicy.off_step (coq/link/C05_link.v)
     quick = ck.tier == "quick"
     rng = ck.rng
     n_cases = 45 if quick else 400
